@@ -1224,7 +1224,9 @@ def _build_staircase(U, rtol=1e-12, atol=1e-12):
             # "Phase shift" by applying an SU(2) transformation to cancel out the
             # top-most phase. Do nothing to everything else.
             phase_su2 = np.array([[running_prod[0, 0].conjugate(), 0], [0, running_prod[0, 0]]])
-            transformations = [[0.0, 0.0, 0.0]] * (n - 2) + [_su2_parameters(phase_su2.conj().T)]
+            transformations = [[0.0, 0.0, 0.0]] * (n - 2) + [
+                _su2_parameters(phase_su2.conj().T, tol=max(1e-10, 100 * atol))
+            ]
 
             full_phase_su2 = np.identity(n, dtype=complex)
             full_phase_su2[0:2, 0:2] = phase_su2
@@ -1246,7 +1248,9 @@ def _build_staircase(U, rtol=1e-12, atol=1e-12):
                         )
                         permmat = phase_su2 @ permmat
 
-                    transformations.append(_su2_parameters(permmat.conj().T))
+                    transformations.append(
+                        _su2_parameters(permmat.conj().T, tol=max(1e-10, 100 * atol))
+                    )
 
                     full_trans = np.identity(n, dtype=complex)
                     full_trans[rot_idx - 1 : rot_idx + 1, rot_idx - 1 : rot_idx + 1] = permmat
@@ -1376,7 +1380,8 @@ def _su3_parameters(U, rtol=1e-12, atol=1e-12):
     """
     if U.shape != (3, 3):
         raise ValueError("Input matrix dimensions of _su3_parameters must be 3x3.")
-    if not np.isclose(np.linalg.det(U), 1):
+    # (numpy's default tolerances unless the caller asked for looser ones)
+    if not np.isclose(np.linalg.det(U), 1, rtol=max(1e-5, 100 * rtol), atol=max(1e-8, 100 * atol)):
         raise ValueError(
             "Input matrix must have determinant 1 to be decomposed into SU(2) parameters."
         )
@@ -1414,7 +1419,7 @@ def _su3_parameters(U, rtol=1e-12, atol=1e-12):
 
         params = [
             [0.0, 0.0, 0.0],
-            _su2_parameters(phase_su2.conj().T),
+            _su2_parameters(phase_su2.conj().T, tol=rest_tol),
             _su2_parameters(remainder_su2, tol=rest_tol),
         ]
 
@@ -1431,7 +1436,8 @@ def _su3_parameters(U, rtol=1e-12, atol=1e-12):
 
         # SU_12(2) - only two parameters
         middle = np.array([[x, -cf, 0], [cf, np.conj(x), 0], [0, 0, 1]])
-        middle_params = _su2_parameters(middle[0:2, 0:2])
+        # (its determinant is the squared norm of the first column: 1 only up to the caller's tolerance)
+        middle_params = _su2_parameters(middle[0:2, 0:2], tol=rest_tol)
 
         # SU_23(3) - again three parameters
         right = middle.conj().T @ left.conj().T @ U
